@@ -205,10 +205,9 @@ def gr_glue(c):
                 ok[f] = len(ok[f])
         return (p["gr"]["st"], len(p["gr"]["fams"]), len(p["gr"]["llgr"]), p["gr"]["fl"], p["rt"], len(p["lt"]),
                 p["sess"], len(p["sgr"]), len(p["sllgr"]), p["nbit"], marked, fresh, freshc, vf.canon(ok))
-    if thorough:
-        targets, nclass = None, None
-    else:
-        targets, nclass = vf.pick_targets(edges, klass, extra=250, seed=c.seed)
+    # the complete graph (two families, the LLGR_STALE-carrying routes) is too large to replay edge by edge on real
+    # sessions within the thorough budget: one representative per class plus a random sample, ten times the quick one
+    targets, nclass = vf.pick_targets(edges, klass, extra=2500 if thorough else 250, seed=c.seed)
     seqs, covered, total = vf.cover_sequences(edges, init_key=init, max_len=40, seed=c.seed, targets=targets)
     inp = os.path.join(vf.WORK, "C10.ev.in")
     outp = os.path.join(vf.WORK, "C10.ev.out")
@@ -236,7 +235,7 @@ def gr_glue(c):
                 f.write(line(edges[ei]["op"]) + "\n")
     if os.path.exists(outp):
         os.remove(outp)
-    rc, out = vf.daemon_test("event::verif_harness::gr_replay", env={"VERIF_IN": inp, "VERIF_OUT": outp}, timeout=3000)
+    rc, out = vf.daemon_test("event::verif_harness::gr_replay", env={"VERIF_IN": inp, "VERIF_OUT": outp}, timeout=5400)
     if rc != 0 or not os.path.exists(outp):
         raise vf.ToolError(f"event harness gr_replay failed rc={rc}:\n{out[-3000:]}")
     got = {(j["seq"], j["step"]): j for j in vf.read_jsonl(outp)}
@@ -573,3 +572,100 @@ def admission(c):
                          "session tail pending at a time in the replayed behaviours (the model itself has no such restriction); IPv6 and "
                          "prefix-length classes are covered by the containment table only")
     return steps
+
+
+def teardown(c):
+    """C07 driver half: the Teardown.tla table on real connections (PeerSession::run over a socket)."""
+    import json
+    spec = os.path.join(vf.ROOT, "spec", "Teardown")
+    r = vf.tlc(spec, "TeardownMC", os.path.join(spec, "q.cfg"), workers=2, timeout=300)
+    c.add_tlc("teardown-table", r)
+    if r.violated:
+        c.violation("design", {"invariant": r.violated, "tlc": r.error_text[:3000]}, {"spec": "Teardown"})
+        return
+    cases = [json.loads(json.loads(ln)) for ln in r.stdout.splitlines() if ln.startswith('"{')]
+    if not cases:
+        raise vf.ToolError("Teardown: no cases emitted")
+    inp = os.path.join(vf.WORK, "C07.teardown.in")
+    outp = os.path.join(vf.WORK, "C07.teardown.out")
+    with open(inp, "w") as f:
+        for j in cases:
+            k = j["case"]
+            f.write(f"case {k['st']} {k['cause']} {k['role']}\n")
+    if os.path.exists(outp):
+        os.remove(outp)
+    rc, out = vf.daemon_test("event::verif_harness::teardown_replay", env={"VERIF_IN": inp, "VERIF_OUT": outp}, timeout=1500)
+    if rc != 0 or not os.path.exists(outp):
+        raise vf.ToolError(f"teardown_replay failed rc={rc}:\n{out[-3000:]}")
+    got = {j["i"]: j for j in vf.read_jsonl(outp)}
+    seen = set()
+    for i, j in enumerate(cases):
+        g = got.get(i)
+        if g is None:
+            raise vf.ToolError(f"no teardown result {i}")
+        k, e = j["case"], j["exp"]
+        if "no OPEN from the daemon" in g["note"] or "no KEEPALIVE after our OPEN" in g["note"] or "first connection refused" in g["note"]:
+            raise vf.ToolError(f"teardown harness could not reach {k}: {g['note']}")
+        bad = None
+        if "did not end" in g["note"]:
+            bad = ("teardown.hang", "the connection's task did not end")
+        elif g["slot"] != "Idle" or g["held"]:
+            bad = ("teardown.slot", f"the slot is {g['slot']} (held={g['held']}) after the connection ended")
+        elif not g["reconnect"]:
+            bad = ("teardown.reconnect", "a new attempt in the same direction is refused or gets no OPEN: " + g["note"])
+        elif e["code"] and (g["code"], g["sub"]) != (e["code"], e["sub"]):
+            bad = ("teardown.notification", f"expected NOTIFICATION {e['code']}/{e['sub']} on the wire, saw {g['code']}/{g['sub']}")
+        if bad:
+            sig = (bad[0], k["cause"], k["st"])
+            if sig in seen:
+                continue
+            seen.add(sig)
+            c.violation(bad[0], {"case": k, "why": bad[1], "observed": g}, {"spec": "Teardown", "case": k})
+    c.cov["evaluations"] = c.cov.get("evaluations", 0) + len(cases)
+    c.cov["distinct_nontrivial"] = c.cov.get("distinct_nontrivial", 0) + len(cases)
+    c.cov["parts"]["teardown"] = {"cases": len(cases), "fsm_error_cases": sum(1 for j in cases if j["exp"]["code"])}
+    c.assumptions += ["driver half: 27 (state, cause) pairs x both connection roles on a real PeerSession::run over loopback; for a refused "
+                      "OPEN or broken framing the NOTIFICATION code is not constrained (the statement fixes it only for messages not "
+                      "allowed in the current state)"]
+
+
+def rov_use(c, routes, states, w):
+    """C12: the validation state as USED by import policy (through TableManager::apply_import and its needs_rpki gate, for
+    assignments built in one call or accumulated over two) and as SHOWN by collect_paths."""
+    import random
+    rng = random.Random(c.seed + 12)
+    pick = [s for s in states if len(s["vrps"]) >= 1]
+    rng.shuffle(pick)
+    pick = pick[:400 if c.tier == "thorough" else 120]
+    inp = os.path.join(vf.WORK, "C12.rovuse.in")
+    outp = os.path.join(vf.WORK, "C12.rovuse.out")
+    embs = [("v4", 8), ("v6", 61), ("v4", 21)] if c.tier == "thorough" else [("v4", 8), ("v6", 61)]
+    with open(inp, "w") as f:
+        for fam, off in embs:
+            f.write(f"emb {fam} {off}\n")
+            f.write("routes " + " ".join(f"{r['p']['len']}:{r['p']['val']}:{r['o']}" for r in routes) + "\n")
+            for s in pick:
+                f.write("state " + "".join(s["exp"]) + " " +
+                        " ".join(f"{v['c']}:{v['p']['len']}:{v['p']['val']}:{v['m']}:{v['a']}" for v in s["vrps"]) + "\n")
+    if os.path.exists(outp):
+        os.remove(outp)
+    rc, out = vf.daemon_test("table_manager::verif_harness::rov_use_replay", env={"VERIF_IN": inp, "VERIF_OUT": outp}, timeout=1500)
+    if rc != 0 or not os.path.exists(outp):
+        raise vf.ToolError(f"rov_use_replay failed rc={rc}:\n{out[-3000:]}")
+    summary = None
+    seen = set()
+    for j in vf.read_jsonl(outp):
+        if "summary" in j:
+            summary = j["summary"]
+            continue
+        for b in j["bad"]:
+            sig = (b["kind"], b.get("reject_when"), b.get("assignment_built"))
+            if sig in seen:
+                continue
+            seen.add(sig)
+            c.violation("rov." + b["kind"], {"embedding": j["emb"], "state": j["line"], "mismatch": b},
+                        {"spec": "Rov (use)", "embedding": j["emb"], "state": j["line"], "mismatch": b})
+    if summary is None:
+        raise vf.ToolError("rov_use_replay wrote no summary")
+    c.cov["evaluations"] += summary["evaluations"]
+    c.cov["parts"]["use"] = dict(summary, embeddings=len(embs))
